@@ -81,7 +81,7 @@ def srte_update(rng):
     if rng.random() < 0.2:
         # the policy is withdrawn: MP_UNREACH_NLRI with the same NLRI
         return {'attr': {15: {'afi_safi': [1, 73], 'withdraw': v14['nlri']}}}
-    return {'attr': {1: 0, 2: [], 5: 100, 8: ['NO_ADVERTISE'], 14: v14, 16: [[779, rng.choice(gen.U16)]], 23: tunnel_encaps(rng)}}
+    return {'attr': {1: 0, 2: [], 5: 100, 8: ['NO_ADVERTISE'], 14: v14, 16: [[rng.choice([779, 779, 0x030b0000, 0x030b4000, 0x030b8000, 0x030bc000]), rng.choice(gen.U16 + gen.U32)]], 23: tunnel_encaps(rng)}}
 
 
 def pmsi_update(rng):
